@@ -12,16 +12,30 @@ open Gen
 
 /-- Area64 never faults (its only index expression, path[len-1], is guarded by len ≥ 3) -/
 theorem area64_total (path : List Point64) : ∃ a, Area64 path = .ok a := by
-  sorry
+  by_cases h : 3 ≤ path.length
+  · exact ⟨_, C14.area64_accumulator path h⟩
+  · exact ⟨_, C14.area64_short path (by omega)⟩
 
 /-- checkPrecision panics exactly outside the documented range -/
 theorem checkPrecision_total_iff (p : Int) : (∃ u, checkPrecision p = .ok u) ↔ (-8 ≤ p ∧ p ≤ 8) := by
-  sorry
+  unfold checkPrecision
+  by_cases h : (decide (p < (-8 : Int)) || decide (p > (8 : Int))) = true
+  · rw [if_pos h]
+    simp only [Bool.or_eq_true, decide_eq_true_eq] at h
+    constructor
+    · rintro ⟨u, hu⟩
+      simp [throw, throwThe, MonadExceptOf.throw, bind, Except.bind] at hu
+    · intro; omega
+  · rw [if_neg h]
+    simp only [Bool.or_eq_true, decide_eq_true_eq] at h
+    constructor
+    · intro; omega
+    · intro; exact ⟨(), rfl⟩
 
 /-- minkowskiInternal's index expressions tmp[g][h], tmp[i][h], tmp[i][j], tmp[g][j] are always in
     range (the slice capacity computation is the separate fix ba87a52) -/
 theorem minkowski_total (pattern path : Array Point64) (isSum isClosed : Bool) :
     ∃ r, Model.minkowski pattern path isSum isClosed = .ok r := by
-  sorry
+  exact Proofs.C03.minkowski_total pattern path isSum isClosed
 
 end C03
